@@ -103,11 +103,19 @@ func stripTimes(d bson.D) bson.D {
 func (cw *c17World) partition(name string) string {
 	num := cw.colNum(name)
 	dump := cw.env.Mongo.Dump()
+	owned := map[string]bool{}
+	for _, d := range dump[cw.env.DBName+".-_-Datatypes"] {
+		if bint(bget(d, "colNum")) == num {
+			owned[bstr(bget(d, "_id"))] = true
+		}
+	}
 	var sb strings.Builder
 	for _, sys := range []string{"-_-Clients", "-_-Datatypes", "-_-Operations", "-_-Snapshots"} {
 		var mine []bson.D
 		for _, d := range dump[cw.env.DBName+"."+sys] {
-			if bint(bget(d, "colNum")) == num {
+			// by the number the document is filed under, and (operations, snapshots) by the datatype it
+			// belongs to: a document filed under a wrong number is still part of its datatype's collection
+			if bint(bget(d, "colNum")) == num || (sys != "-_-Clients" && sys != "-_-Datatypes" && owned[bstr(bget(d, "duid"))]) {
 				mine = append(mine, d)
 			}
 		}
@@ -383,6 +391,19 @@ func TestC17(t *testing.T) {
 					}
 					before := cw.snapshotOthers(w.col)
 					oldNum := cw.colNum(w.col)
+					// the datatypes of this collection, by their ids: what the harness opened here plus what the
+					// store lists under the collection's number (documents created by REST patches)
+					oldDUIDs := map[string]bool{}
+					for _, k := range w.keys {
+						if k.duid != "" {
+							oldDUIDs[k.duid] = true
+						}
+					}
+					for _, d := range cw.env.Mongo.Dump()[cw.env.DBName+".-_-Datatypes"] {
+						if bint(bget(d, "colNum")) == oldNum {
+							oldDUIDs[bstr(bget(d, "_id"))] = true
+						}
+					}
 					if err := cw.env.ResetCollection(w.col); err != nil {
 						return fmt.Errorf("reset failed: %v", err)
 					}
@@ -395,6 +416,18 @@ func TestC17(t *testing.T) {
 						for _, d := range dump[cw.env.DBName+"."+sys] {
 							if bint(bget(d, "colNum")) == oldNum {
 								return fmt.Errorf("after the reset of %s a document with its number %d remains in %s: %v", w.col, oldNum, sys, bget(d, "_id"))
+							}
+						}
+					}
+					// ... and nothing that belongs to one of its datatypes, whatever number it is filed under
+					for _, sys := range []string{"-_-Datatypes", "-_-Operations", "-_-Snapshots"} {
+						for _, d := range dump[cw.env.DBName+"."+sys] {
+							id := bstr(bget(d, "duid"))
+							if sys == "-_-Datatypes" {
+								id = bstr(bget(d, "_id"))
+							}
+							if oldDUIDs[id] {
+								return fmt.Errorf("after the reset of %s a document of its datatype %s remains in %s: %v (filed under collection number %d, the collection had %d)", w.col, id, sys, bget(d, "_id"), bint(bget(d, "colNum")), oldNum)
 							}
 						}
 					}
